@@ -43,6 +43,8 @@ pub struct DCfg {
     pub cross_unsub: Option<(usize, u8, u32)>,
     /// long stall (ms) while a BlockOnFull channeled subscriber is parked and its channel is full
     pub long_stall_ms: u64,
+    /// no whole-run sentinel subscriber: the subscriber list can become empty during the run
+    pub no_sentinel: bool,
 }
 
 pub fn gen(rng: &mut Rng, tiny: bool, focus: &str) -> DCfg {
@@ -116,6 +118,7 @@ pub fn gen(rng: &mut Rng, tiny: bool, focus: &str) -> DCfg {
         slow_consumer_ms,
         cross_unsub,
         long_stall_ms,
+        no_sentinel: rng.chance(1, 3),
     }
 }
 
@@ -147,6 +150,7 @@ pub fn describe(c: &DCfg) -> J {
         ("slow_consumer_ms", J::U(c.slow_consumer_ms)),
         ("cross_unsubscribe", c.cross_unsub.map(|(cap, p, n)| J::s(format!("channeled X unsubscribes channeled Y (cap {} {}) from inside its {}-th on_notify", cap, POL_NAMES[p as usize], n))).unwrap_or(J::Null)),
         ("perturb", J::U(c.perturb as u64)),
+        ("whole_run_sentinel", J::B(!c.no_sentinel)),
     ])
 }
 
@@ -159,7 +163,7 @@ pub fn execute(c: &DCfg, seed: u64) -> W {
     let total = (c.n_prod * c.per_prod) as u64;
     let returned = Counter::new();
     let registered = Counter::new();
-    let sentinel = w.add_direct(0, NOGATE, false, true, false);
+    let sentinel = if c.no_sentinel { None } else { Some(w.add_direct(0, NOGATE, false, true, false)) };
     let stall_counter = Arc::new(Counter::new());
     // pre-generate the action list so the controller knows how many notify
     let mut progs: Vec<Vec<Act>> = Vec::new();
